@@ -84,7 +84,7 @@ package go_clipper2
 //@ spec collExact(path Path64) bool = forall(i, 0, len(path), forall(j, 0, len(path), forall(k, 0, len(path), isCollinear(path[i], path[j], path[k]) == (cross(path[i], path[j], path[k]) == 0))))
 
 //@ func trimCollinear64Pass
-//@   props C15 C03
+//@   props C14 C15 C03
 //@   pure
 //@   requires domPath(path, 29)
 //@   loop 0 invariant [idx] 0 <= i && (i < l || i == 0) && l == len(path)
@@ -379,9 +379,20 @@ package go_clipper2
 //@   loop 0 invariant [sum] a == sumArea(paths, _i)
 //@   ensures [sum] result == sumArea(paths, len(paths))
 
+//@ spec onSeg(p, a, b Point64) bool = cross(a, b, p) == 0 && min(a.Y, b.Y) <= p.Y && p.Y <= max(a.Y, b.Y) && (a.Y == b.Y ==> (min(a.X, b.X) <= p.X && p.X <= max(a.X, b.X)))
+//@ spec sideOK(isAbove bool, y, ptY int64) bool = ite(isAbove, y <= ptY, y >= ptY)
 //@ func PointInPolygon
-//@   props C14 C03
+//@   props C14 C03 C04
 //@   pure
+//@   assert after return#2 [is-on-at-a-level-vertex-means-the-point-is-that-vertex-or-lies-on-the-level-edge-into-it] prev == polygon[prevIdx(i, lenP)] && curr == polygon[i] && onSeg(pt, prev, curr)
+//@   assert after return#3 [is-on-at-a-crossing-edge-means-the-point-lies-on-that-edge] prev == polygon[prevIdx(i, lenP)] && curr == polygon[i] && onSeg(pt, prev, curr)
+//@   assert after return#6 [is-on-at-the-closing-edge-means-the-point-lies-on-that-edge] onSeg(pt, polygon[prevIdx(i, lenP)], polygon[i])
+//@   loop 0 invariant [leading-vertices-on-the-level] forall(k, 0, start, polygon[k].Y == pt.Y)
+//@   loop 1 invariant [the-vertex-before-the-scan-position-is-not-beyond-the-level] sideOK(isAbove, polygon[prevIdx(ite(i == lenP, 0, i), lenP)].Y, pt.Y)
+//@   loop 1 invariant [the-second-pass-ends-at-the-level-vertex-before-the-start] end != lenP ==> (start > 0 && i < end)
+//@   loop 1 invariant [start-vertex] polygon[start].Y != pt.Y && startingAbove == (polygon[start].Y < pt.Y) && (start > 0 ==> polygon[start-1].Y == pt.Y)
+//@   loop 1.0 invariant [the-vertex-before-the-scan-position-is-not-beyond-the-level] isAbove && sideOK(isAbove, polygon[prevIdx(ite(i == lenP, 0, i), lenP)].Y, pt.Y) && (end != lenP ==> (start > 0 && i < end)) && (start > 0 ==> polygon[start-1].Y == pt.Y)
+//@   loop 1.1 invariant [the-vertex-before-the-scan-position-is-not-beyond-the-level] !isAbove && sideOK(isAbove, polygon[prevIdx(ite(i == lenP, 0, i), lenP)].Y, pt.Y) && (end != lenP ==> (start > 0 && i < end)) && (start > 0 ==> polygon[start-1].Y == pt.Y)
 //@   requires dom(pt, 29) && domPath(polygon, 29)
 //@   loop 0 invariant [idx] 0 <= start && start <= lenP && lenP == len(polygon) && lenP >= 3
 //@   loop 0 decreases lenP - start
@@ -1315,7 +1326,7 @@ package go_clipper2
 // ---------------------------------------------------------------------------------
 
 //@ func PolyPathBase.AddChild
-//@   props C04 C03
+//@   props C04 C03 C12
 //@   ensures [child] result != nil && result != p && result.parent == p && same(result.polygon, pth) && len(result.childs) == 0
 //@   ensures [appended-once] len(p.childs) == old(len(p.childs)) + 1 && p.childs[len(p.childs)-1] == result && forall(k, 0, old(len(p.childs)), p.childs[k] == old(p.childs)[k])
 //@   ensures [frame] p.parent == old(p.parent) && same(p.polygon, old(p.polygon))
@@ -1585,7 +1596,7 @@ package go_clipper2
 //@   ensures [all-on-boundary-uses-own-midpoint] forall(k, 0, len(path1), PointInPolygon(path1[k], path2) == IsOn) ==> result == (PointInPolygon(Point64{(getBounds(path1).left + getBounds(path1).right) / 2, (getBounds(path1).top + getBounds(path1).bottom) / 2}, path2) != IsOutside)
 
 //@ func Group.GetLowestPathInfo
-//@   props C05 C03
+//@   props C05 C03 C13
 //@   nosafety
 //@   assumes forall(k, 0, len(g.inPaths), domPath(g.inPaths[k], 29) && (len(g.inPaths[k]) <= 4 || noWrap(g.inPaths[k])))
 //@   loop 0 invariant [orientation-of-lowest] -1 <= idx && idx < _i+1 && idx < len(g.inPaths)+1 && (idx >= 0 ==> (idx < _i && isNegArea == (Area64(g.inPaths[idx]) < 0)))
@@ -1594,6 +1605,9 @@ package go_clipper2
 //@   loop 0.0 invariant [this-path] idx == i ==> (a != 1.7976931348623157e308 && isNegArea == (a < 0))
 //@   loop 0.0 invariant [earlier-path] (idx >= 0 && idx < i) ==> isNegArea == (Area64(g.inPaths[idx]) < 0)
 //@   ensures [orientation-of-lowest] result0 >= 0 ==> (result0 < len(g.inPaths) && result1 == (Area64(g.inPaths[result0]) < 0))
+//@   loop 0 invariant [no-lowest-path-yet-means-only-empty-or-zero-area-paths-so-far] idx == -1 ==> (botPt.X == math.MaxInt64 && botPt.Y == math.MinInt64 && forall(k, 0, _i, len(g.inPaths[k]) == 0 || Area64(g.inPaths[k]) == 0))
+//@   loop 0.0 invariant [the-first-vertex-of-the-first-path-with-area-is-always-taken] idx == -1 ==> (botPt.X == math.MaxInt64 && botPt.Y == math.MinInt64 && _i == 0 && a == 1.7976931348623157e308 && forall(k, 0, i, len(g.inPaths[k]) == 0 || Area64(g.inPaths[k]) == 0))
+//@   ensures [wherever-the-paths-lie-a-group-with-a-path-of-non-zero-area-has-a-lowest-path] result0 == -1 ==> forall(k, 0, len(g.inPaths), len(g.inPaths[k]) == 0 || Area64(g.inPaths[k]) == 0)
 
 //@ func InflatePathsD
 //@   props C07
@@ -2650,3 +2664,16 @@ package go_clipper2
 //@   loop 0 invariant [closed-paths-are-divided-by-the-scale-one-by-one] len(*solutionClosed) == _i && forall(k, 0, _i, same((*solutionClosed)[k], ScalePath64ToPathD(solClosed64[k], c.invScale)))
 //@   loop 1 invariant [open-paths-are-divided-by-the-scale-one-by-one] len(*solutionOpen) == _i && forall(k, 0, _i, same((*solutionOpen)[k], ScalePath64ToPathD(solOpen64[k], c.invScale)))
 //@   loop 1 invariant [closed-solution-complete] len(*solutionClosed) == len(solClosed64)
+
+// isClockwise (C06, C13): between two opposite sides of the rectangle the turn is read off the exact sign of the
+// cross product through the rectangle's mid-point; adjacent sides turn clockwise when the second follows the first
+//@ func isClockwise
+//@   props C06 C03
+//@   requires dom(prevPt, 29) && dom(currPt, 29) && dom(rectMidPoint, 29) && validLoc(prev) && validLoc(curr)
+//@   ensures [opposite-sides-turn-by-the-sign-of-the-cross-product-through-the-mid-point] (prev - curr == 2 || curr - prev == 2) ==> result == (cross(prevPt, rectMidPoint, currPt) < 0)
+//@   ensures [other-sides-turn-clockwise-when-the-second-follows-the-first] !(prev - curr == 2 || curr - prev == 2) ==> result == ((prev == 0 && curr == 1) || (prev == 1 && curr == 2) || (prev == 2 && curr == 3) || (prev == 3 && curr == 0) || (prev == 4 && curr == 1))
+
+//@ func isClockwise variant maxcoord
+//@   props C13
+//@   budget 3
+//@   requires dom(prevPt, 61) && dom(currPt, 61) && dom(rectMidPoint, 61) && validLoc(prev) && validLoc(curr)
